@@ -169,6 +169,14 @@ def r1_tables(program, rep):
                             "(InOutPair), the multi-source error or the "
                             "table entries are not built in this function "
                             "in the form analysed")
+    for pc_ in pairs:
+        par_ = getattr(pc_, "_parent", None)
+        if isinstance(par_, ast.Call) and isinstance(
+                par_.func, ast.Attribute) and par_.func.attr == "setdefault":
+            raise AnalysisError("routing_tree_to_tables: the per-chip record "
+                                "is created as the default of setdefault() "
+                                "and merged on one path; that form is not "
+                                "analysed")
     okp = len(pairs) == 1
     create_node = None
     arr_expr = None
@@ -312,6 +320,7 @@ def r1_tables(program, rep):
                 else:
                     chip = None
                 ok = False
+                matched_add = False
                 for recv_e, elem_e, c in single_adds(fn):
                     cn_ = cfg.node_containing(c) if isinstance(
                         c, ast.Call) else cfg.node_of(c)
@@ -319,9 +328,23 @@ def r1_tables(program, rep):
                             T, elem_e))) != strip_new(T.term(rte[0], n,
                                                              env_)):
                         continue
+                    matched_add = True
                     lk3 = lookup(T.term(recv_e, cn_))
                     ok = lk3 is not None and lk3[1] == chip and \
                         chip is not None
+                if not matched_add:
+                    # (e.g. tables[chip] = [<entry> for ...]): where the
+                    # entry goes is read from the store instead
+                    for n_, st_, base_, key_, val_ in stores(T):
+                        pv_ = strip_new(val_)
+                        if pv_[0] == "listcomp" and strip_new(pv_[1]) == \
+                                strip_new(T.term(rte[0], n, env_)):
+                            matched_add = True
+                            ok = key_ == chip and chip is not None
+                if not matched_add:
+                    raise AnalysisError("routing_tree_to_tables: where the "
+                                        "entries built are put was not "
+                                        "found in the form analysed")
     rep.check(ok, "C10-R1", inst, "entry = RoutingTableEntry(route=outs, "
               "key, mask, sources=ins) for each (key, mask) of the chip",
               construct="entry roles", node=fn,
@@ -759,6 +782,42 @@ def r3_layout(program, folder, rep, write_call):
             detail = "bits tested 0x%08x" % (kept & 0xffffffff)
             okc = (kept & bits) == bits and lay.const == 0 and \
                 sorted(m_.value for m_ in routes_enum) == list(range(24))
+    if not okc and built and len(built) == 1:
+        # whatever way the test is spelt ((w >> r) & 1, (w >> r) % 2 == 1,
+        # w & (1 << r) ...): fold it for every route number and a spread of
+        # route words; it must hold exactly when bit r of the word is set
+        from ..terms import eval_closed
+        it, elt, conds = built[0]
+        routes_enum = folder.name("rig.routing_table.entries", "Routes")
+        vals_ = sorted(m_.value for m_ in routes_enum)
+        is_routes = it[0] in ("attr", "global") and \
+            show(it).endswith("Routes")
+        if is_routes and elt == ("elem", it) and len(conds) == 1 and \
+                vals_ == list(range(24)):
+            c0, pol0 = conds[0]
+
+            def subst_(t_, m_):
+                if t_ in m_:
+                    return m_[t_]
+                if not isinstance(t_, tuple) or not t_ or t_[0] == "const":
+                    return t_
+                return tuple(subst_(x_, m_) if isinstance(x_, tuple) else x_
+                             for x_ in t_)
+            words = [0, 0xffffff, 0x00ffffff, 0xa5a5a5, 0x5a5a5a, 0x800001,
+                     0x7ffffe] + [1 << b_ for b_ in range(24)]
+            try:
+                good = True
+                for r_ in vals_:
+                    for w_ in words:
+                        v_ = eval_closed(subst_(plain(c0), {
+                            plain(elt): ("const", r_),
+                            plain(WORD): ("const", w_)}))
+                        if bool(v_) != (pol0 == bool((w_ >> r_) & 1)):
+                            good = False
+                okc = good
+                detail = "folded over 24 routes x %d words" % len(words)
+            except AnalysisError:
+                pass
     rep.check(okc, "C10-R3", qual(up), "route r is reported iff bit r of the "
               "unmodified route word is set, for all 24 members of Routes "
               "(bits 0..23)", construct="route decoding %s" % detail,
@@ -779,6 +838,33 @@ def r3_layout(program, folder, rep, write_call):
         if isinstance(r.value, ast.Constant) and r.value.value is None:
             f = U.all_facts(U.cfg.node_of(r))
             inv = any(p and t in forms for t, p in f)
+            if not inv:
+                # any other spelling: fold the test over every top byte
+                from ..terms import eval_closed
+
+                def subst2_(t_, w_):
+                    if t_ == plain(WORD):
+                        return ("const", w_)
+                    if not isinstance(t_, tuple) or not t_ or \
+                            t_[0] == "const":
+                        return t_
+                    return tuple(subst2_(x_, w_) if isinstance(x_, tuple)
+                                 else x_ for x_ in t_)
+                for t, p in f:
+                    if not any(st_ == plain(WORD)
+                               for st_ in subterms(plain(t))):
+                        continue
+                    try:
+                        inv = all(
+                            bool(eval_closed(subst2_(plain(t), (tb_ << 24) |
+                                                     lo_))) ==
+                            (p == (tb_ == 0xff))
+                            for tb_ in range(256)
+                            for lo_ in (0, 0xffffff, 0x123456))
+                    except AnalysisError:
+                        inv = False
+                    if inv:
+                        break
     rep.check(inv, "C10-R3", qual(up), "an entry whose top route byte is "
               "0xff is reported as unused", construct="invalid entry test",
               node=up)
